@@ -324,6 +324,65 @@ def facts_apply(mod, em):
 
 # ------------------------------------------------------------------ focal._mean_numpy / _equal_numpy / mean
 
+def mean_dispatch_fact(mod):
+    """the glue `focal._mean(data, excludes)`: one ArrayTypeFunctionMapping; the backend function it selects is called
+    exactly once, outside any control flow, with (the data, excludes), and its value is what `_mean` returns
+    -> (ok, source text, why not)"""
+    from facts_dask import local_bindings
+    try:
+        f = find_func(mod, "_mean")
+        if f is None:
+            raise NoMatch("_mean not found")
+        params = [a.arg for a in f.args.args]
+        if len(params) != 2 or f.args.vararg or f.args.kwarg or f.args.kwonlyargs:
+            raise NoMatch("signature of _mean")
+        data, excl = params
+        if any(isinstance(n, (ast.For, ast.While, ast.ListComp, ast.GeneratorExp, ast.SetComp, ast.DictComp, ast.If,
+                              ast.IfExp, ast.Try)) for n in ast.walk(f)):
+            raise NoMatch("control flow in _mean")
+        maps = [n for n in ast.walk(f) if isinstance(n, ast.Call) and call_name(n.func) == "ArrayTypeFunctionMapping"]
+        if len(maps) != 1:
+            raise NoMatch("ArrayTypeFunctionMapping calls")
+        binds = local_bindings(f)
+        mnames = [k for k, vs in binds.items() if len(vs) == 1 and vs[0] is maps[0]]
+        # the selection `mapper(agg)` (or the mapping called directly), possibly bound once to a local name
+        def is_selection(n):
+            return isinstance(n, ast.Call) and len(n.args) == 1 and not n.keywords and \
+                ((isinstance(n.func, ast.Name) and n.func.id in mnames) or n.func is maps[0])
+        sel_names = [k for k, vs in binds.items() if len(vs) == 1 and is_selection(vs[0])]
+        uses = [n for n in ast.walk(f) if isinstance(n, ast.Call)
+                and (is_selection(n.func) or (isinstance(n.func, ast.Name) and n.func.id in sel_names))]
+        if len(uses) != 1:
+            raise NoMatch(f"{len(uses)} calls of the selected backend function")
+        use = uses[0]
+        if use.keywords or len(use.args) != 2:
+            raise NoMatch("arguments of the backend call")
+        # first argument: the data (directly, or `.data` of a DataArray built from it)
+        a0 = use.args[0]
+        wraps = [k for k, vs in binds.items() if len(vs) == 1 and isinstance(vs[0], ast.Call)
+                 and call_name(vs[0].func) == "DataArray" and len(vs[0].args) == 1 and not vs[0].keywords
+                 and isinstance(vs[0].args[0], ast.Name) and vs[0].args[0].id == data]
+        ok0 = (isinstance(a0, ast.Name) and a0.id == data) or \
+            (isinstance(a0, ast.Attribute) and a0.attr == "data" and isinstance(a0.value, ast.Name) and a0.value.id in wraps)
+        if not ok0 or not (isinstance(use.args[1], ast.Name) and use.args[1].id == excl):
+            raise NoMatch("the backend is not called with (data, excludes)")
+        if len(binds.get(data, [])) or len(binds.get(excl, [])):
+            raise NoMatch("parameters rebound")
+        rets = [n for n in ast.walk(f) if isinstance(n, ast.Return)]
+        if len(rets) != 1:
+            raise NoMatch("returns")
+        rv = rets[0].value
+        if rv is use:
+            pass
+        elif isinstance(rv, ast.Name) and len(binds.get(rv.id, [])) == 1 and binds[rv.id][0] is use:
+            pass
+        else:
+            raise NoMatch("the backend's value is not what _mean returns")
+        return True, ast.unparse(use), ""
+    except NoMatch as ex:
+        return False, None, str(ex)
+
+
 def mean_loop_fact(mod):
     """the wrapper `focal.mean`: is the result `passes` applications of the one-pass function to the (float) raster?
 
@@ -541,6 +600,9 @@ def facts_mean(mod, em):
         em.define("equal_numpy_args", "", "String × String", '("?", "?")', None)
 
     ok, src, why = mean_loop_fact(mod)
+    if ok:
+        ok, dsrc, why = mean_dispatch_fact(mod)
+        src = f"{src}   with _mean: return {dsrc}" if ok else None
     if not ok:
         em.rep["mean_iterates_passes_error"] = why
     em.define("mean_iterates_passes", "", "Bool", "true" if ok else "false", src if ok else None)
@@ -640,24 +702,56 @@ def facts_stats(mod, em):
 
 
 # ------------------------------------------------------------------ hotspots wrapper
+class _Inline(ast.NodeTransformer):
+    """replace local names bound exactly once (top-level `a = e`) by their value, parameters by p0, p1, ..."""
+
+    def __init__(self, binds, params):
+        self.binds, self.params, self.depth = binds, params, 0
+
+    def visit_Name(self, n):
+        if isinstance(n.ctx, ast.Load):
+            if n.id in self.params:
+                return ast.Name(id=f"p{self.params.index(n.id)}", ctx=ast.Load())
+            if n.id in self.binds and self.depth < 12:
+                self.depth += 1
+                out = self.visit(ast.parse(ast.unparse(self.binds[n.id]), mode="eval").body)
+                self.depth -= 1
+                return out
+        return n
+
+
+def inlined(func, expr):
+    """canonical text of `expr` inside `func`: single-assignment locals inlined, parameters renamed positionally --
+    invariant under renaming of locals / parameters and under introducing or removing temporaries"""
+    counts, binds = {}, {}
+    for n in ast.walk(func):
+        if isinstance(n, ast.Name) and isinstance(n.ctx, (ast.Store, ast.Del)):
+            counts[n.id] = counts.get(n.id, 0) + 1
+    for st in func.body:
+        if isinstance(st, ast.Assign) and len(st.targets) == 1 and isinstance(st.targets[0], ast.Name) \
+                and counts.get(st.targets[0].id) == 1:
+            binds[st.targets[0].id] = st.value
+    params = [a.arg for a in func.args.args]
+    tree = _Inline(binds, params).visit(ast.parse(ast.unparse(expr), mode="eval").body)
+    return ast.unparse(ast.fix_missing_locations(tree))
+
+
 def facts_hotspots(mod, em):
     f = find_func(mod, "_hotspots_numpy")
     norm = z = guard = False
-    if f is not None:
-        a = simple_assigns(f.body)
-        m = a.get("mean_array")
-        if isinstance(m, ast.Call) and call_name(m.func) == "convolve_2d" and len(m.args) == 2 \
-                and ast.unparse(m.args[0]) == "data" and ast.unparse(m.args[1]) == "kernel / kernel.sum()":
-            norm = True
-        if ast.unparse(a.get("global_mean", ast.Constant(0))) == "np.nanmean(data)" \
-                and ast.unparse(a.get("global_std", ast.Constant(0))) == "np.nanstd(data)" \
-                and ast.unparse(a.get("z_array", ast.Constant(0))) == "(mean_array - global_mean) / global_std" \
-                and ast.unparse(a.get("out", ast.Constant(0))) == "_calc_hotspots_numpy(z_array)" \
-                and ast.unparse(a.get("data", ast.Constant(0))) == "raster.data.astype(np.float32)":
-            z = True
+    if f is not None and len(f.args.args) == 2:
+        D = "p0.data.astype(np.float32)"
+        conv = f"convolve_2d({D}, p1 / p1.sum())"
+        want = f"_calc_hotspots_numpy(({conv} - np.nanmean({D})) / np.nanstd({D}))"
+        rets = [n for n in ast.walk(f) if isinstance(n, ast.Return)]
+        if len(rets) == 1 and f.body[-1] is rets[0] and rets[0].value is not None:
+            got = inlined(f, rets[0].value)
+            norm = conv in got
+            z = got == want
         for st in f.body:
-            if isinstance(st, ast.If) and ast.unparse(st.test) == "global_std == 0" and st.body \
-                    and isinstance(st.body[0], ast.Raise) and "ZeroDivisionError" in ast.unparse(st.body[0]):
+            if isinstance(st, ast.If) and not st.orelse and st.body and isinstance(st.body[0], ast.Raise) \
+                    and "ZeroDivisionError" in ast.unparse(st.body[0]) \
+                    and inlined(f, st.test) in (f"np.nanstd({D}) == 0", f"0 == np.nanstd({D})"):
                 guard = True
     em.define("hotspots_kernel_normalised", "", "Bool", "true" if norm else "false",
               "mean_array = convolve_2d(data, kernel / kernel.sum())" if norm else None)
